@@ -55,7 +55,19 @@ def frames(case):
     return base, feed
 
 
-def run_case(case, client_obj=None, extra_kwargs=None, want_client=False, omit_model_parameters=False, base_frame=None, feed_frame=None, preprocessed_none=False, config_none=False):
+# the defaults of ModelClient.get_estimates as documented by its signature / its keyword lookups at the pinned commit (written out here on purpose: a
+# default that moves in the code must not move in the harness with it)
+DOCUMENTED_DEFAULTS = {"prediction_intervals": [0.7, 0.9], "percent_reporting_threshold": 100, "geographic_unit_type": "county", "features": [], "fixed_effects": {},
+                       "pi_method": "nonparametric", "handle_unreporting": "drop", "lhs_called_contests": [], "rhs_called_contests": [], "stop_model_call": []}
+DOCUMENTED_MP_DEFAULTS = {"turnout_factor_lower": 0.5, "turnout_factor_upper": 2.0, "outlier_z_threshold": 2.0, "fit_margin_outlier_model": True,
+                          "fit_turnout_outlier_model": True, "robust": False, "lambda_": 0, "seed": 4191, "beta": 1, "winsorize": False}
+
+
+def default_aggregates_doc(office):
+    return ["postal_code", "district", "unit"] if office in ("H", "Y", "Z") else ["postal_code", "unit"]
+
+
+def run_case(case, client_obj=None, extra_kwargs=None, want_client=False, omit_model_parameters=False, base_frame=None, feed_frame=None, preprocessed_none=False, config_none=False, defaults=None):
     """returns dict: {'ok': bool, 'tables': {name: DataFrame}, 'exc': (type name, msg)}
 
     base_frame: pass this very DataFrame object as preprocessed_data (a caller that keeps one baseline frame across polls)
@@ -80,18 +92,38 @@ def run_case(case, client_obj=None, extra_kwargs=None, want_client=False, omit_m
     if extra_kwargs:
         kwargs.update(extra_kwargs)
     out = {"ok": False, "tables": None, "exc": None}
+    top = {"prediction_intervals": list(p["prediction_intervals"]), "percent_reporting_threshold": p["percent_reporting_threshold"], "geographic_unit_type": case["unit_type"]}
+    mp_arg = None if omit_model_parameters else dict(p.get("model_parameters", {}))
+    if defaults == "omit":
+        # everything that has its documented default value is left out of the call ...
+        for k_, v_ in list(top.items()):
+            if v_ == DOCUMENTED_DEFAULTS[k_]:
+                top.pop(k_)
+        for k_ in list(kwargs):
+            if k_ in DOCUMENTED_DEFAULTS and kwargs[k_] == DOCUMENTED_DEFAULTS[k_]:
+                kwargs.pop(k_)
+        if kwargs.get("aggregates") is not None and list(kwargs["aggregates"]) == default_aggregates_doc(case["office"]):
+            kwargs.pop("aggregates")
+        if mp_arg is not None:
+            mp_arg = {k_: v_ for k_, v_ in mp_arg.items() if not (k_ in DOCUMENTED_MP_DEFAULTS and v_ == DOCUMENTED_MP_DEFAULTS[k_])}
+            if not mp_arg:
+                mp_arg = None
+    elif defaults == "spell" and mp_arg is not None:
+        # ... or every documented default of the model parameters is written out
+        for k_, v_ in DOCUMENTED_MP_DEFAULTS.items():
+            if k_ in ("seed", "lambda_") and p["pi_method"] == "bootstrap":
+                continue            # the bootstrap has defaults of its own for these two (seed 0, regularisation chosen by cross-validation)
+            mp_arg.setdefault(k_, v_)
     try:
         res = mc.get_estimates(
             feed,
             gen.ELECTION_ID,
             case["office"],
             list(p["estimands"]),
-            prediction_intervals=list(p["prediction_intervals"]),
-            percent_reporting_threshold=p["percent_reporting_threshold"],
-            geographic_unit_type=case["unit_type"],
             raw_config=(None if config_none else gen.make_config(case)),
             preprocessed_data=(None if preprocessed_none else (base_frame if base_frame is not None else base.copy())),
-            **({} if omit_model_parameters else {"model_parameters": dict(p.get("model_parameters", {}))}),
+            **top,
+            **({} if mp_arg is None else {"model_parameters": mp_arg}),
             **kwargs,
         )
         out["ok"] = True
